@@ -246,6 +246,129 @@ func (in *incarnation) nevents() int {
 	return len(in.events)
 }
 
+// firstRead performs the first call on a re-opened state and compares what it shows of n1/TA with the model.
+// kind: 0 nothing, 1 aggregated kind watch with bootstrap contents, 2 kind watch with bootstrap contents, 3 List.
+// A call rejected because the lazy load was made to fail is repeated (the next call loads completely).
+func firstRead(ctx context.Context, core state.CoreState, mdl *model.Store, kind, _ int) string {
+	want := map[string]string{}
+	for _, r := range mdl.List("n1", "TA") {
+		want[r.ID] = strconv.FormatUint(r.Ver, 10)
+	}
+
+	md := resource.NewMetadata("n1", "TA", "", resource.VersionUndefined)
+	got := map[string]string{}
+	what := ""
+
+	wctx, cancel := context.WithCancel(ctx)
+	defer cancel()
+
+	collect := func(next func() ([]state.Event, bool)) string {
+		for {
+			evs, ok := next()
+			if !ok {
+				return "no Bootstrapped event within 10 s"
+			}
+
+			for _, e := range evs {
+				switch e.Type {
+				case state.Bootstrapped:
+					return ""
+				case state.Created:
+					got[e.Resource.Metadata().ID()] = e.Resource.Metadata().Version().String()
+				case state.Errored:
+					return fmt.Sprintf("watch failed: %v", e.Error)
+				case state.Updated, state.Destroyed, state.Noop:
+					return fmt.Sprintf("unexpected %s event in the bootstrap contents", e.Type)
+				}
+			}
+		}
+	}
+
+	switch kind {
+	case 1:
+		what = "aggregated kind watch with bootstrap contents"
+		ch := make(chan []state.Event)
+
+		var err error
+
+		for i := 0; i < 6; i++ {
+			if err = core.WatchKindAggregated(wctx, md, ch, state.WithBootstrapContents(true)); !isInjected(err) {
+				break
+			}
+		}
+
+		if err != nil {
+			return fmt.Sprintf("first call (%s): %v", what, err)
+		}
+
+		if msg := collect(func() ([]state.Event, bool) {
+			select {
+			case evs := <-ch:
+				return evs, true
+			case <-time.After(10 * time.Second):
+				return nil, false
+			}
+		}); msg != "" {
+			return fmt.Sprintf("first call (%s): %s", what, msg)
+		}
+	case 2:
+		what = "kind watch with bootstrap contents"
+		ch := make(chan state.Event)
+
+		var err error
+
+		for i := 0; i < 6; i++ {
+			if err = core.WatchKind(wctx, md, ch, state.WithBootstrapContents(true)); !isInjected(err) {
+				break
+			}
+		}
+
+		if err != nil {
+			return fmt.Sprintf("first call (%s): %v", what, err)
+		}
+
+		if msg := collect(func() ([]state.Event, bool) {
+			select {
+			case e := <-ch:
+				return []state.Event{e}, true
+			case <-time.After(10 * time.Second):
+				return nil, false
+			}
+		}); msg != "" {
+			return fmt.Sprintf("first call (%s): %s", what, msg)
+		}
+	case 3:
+		what = "List"
+
+		var (
+			l   resource.List
+			err error
+		)
+
+		for i := 0; i < 6; i++ {
+			if l, err = core.List(wctx, md); !isInjected(err) {
+				break
+			}
+		}
+
+		if err != nil {
+			return fmt.Sprintf("first call (%s): %v", what, err)
+		}
+
+		for _, it := range l.Items {
+			got[it.Metadata().ID()] = it.Metadata().Version().String()
+		}
+	default:
+		return ""
+	}
+
+	if fmt.Sprint(got) != fmt.Sprint(want) {
+		return fmt.Sprintf("the first call on the re-opened state (%s) shows %v, the acknowledged operations left %v", what, got, want)
+	}
+
+	return ""
+}
+
 func valOf(size, n int) string {
 	s := "v" + strconv.Itoa(n) + ":"
 	if sizes[size] > len(s) {
@@ -409,6 +532,14 @@ func Run(p Plan) (v hk.Verdict) {
 			in, err = open(path, m, ctr, p.Faults, false)
 			if err != nil {
 				v.Failf("step %d: reopen: %v", i, err)
+
+				return v
+			}
+
+			// the very first call on the re-opened state is a read of a drawn kind: it must see every acknowledged
+			// operation, whichever entry point triggers the lazy load
+			if msg := firstRead(ctx, in.core, mdl, op.Label, op.Key); msg != "" {
+				v.Failf("step %d (reopen %s): %s", i, k, msg)
 
 				return v
 			}
